@@ -73,7 +73,7 @@ def scenario(draw) -> Dict[str, Any]:
     n_ev = draw(st.integers(1, 8))
     qid = 1
     for _ in range(n_ev):
-        kind = draw(st.sampled_from(['query', 'query', 'query', 'sighting', 'train', 'sighting2']))
+        kind = draw(st.sampled_from(['query', 'query', 'query', 'sighting', 'train', 'sighting2', 'echoes']))
         if kind == 'query':
             ev = draw(query_event(n, draw(gap_st)))
             ev['id'] = qid
@@ -87,6 +87,15 @@ def scenario(draw) -> Dict[str, Any]:
             ev['id'] = qid
             qid += 1
             events.append(ev)
+        elif kind == 'echoes':
+            # several hosts ask the very same thing (same bytes, id 0) a fraction of a second apart: copies within a second of the
+            # last one *handled* are dropped by the duplicate guard, a copy a second or more after it is a query like any other
+            ev = draw(query_event(n, draw(gap_st)))
+            ev['id'] = 0
+            ev['probe'] = False
+            events.append(ev)
+            for c_ in range(draw(st.integers(2, 3))):
+                events.append(dict(ev, client=(ev['client'] + 1 + c_) % 3, gap=draw(st.sampled_from([500, 600, 600, 999, 1000]))))
         elif kind == 'sighting2':
             # the same records are seen twice, seconds apart (a peer that repeats its announcement; the second copy has other bytes
             # than the first only if the selection differs - identical copies more than a second apart are processed too), and a
@@ -162,6 +171,16 @@ def check(case: Dict[str, Any]) -> Dict[str, Any]:
     t0 = run.t_settled_ms
     rel = lambda ms: round(ms - t0, 3)
     by_data = {q['data']: q for q in run.queries}
+    guard_dropped = run.dropped_by_duplicate_guard()
+    same_bytes: Dict[bytes, List[Dict[str, Any]]] = {}
+    for q in run.queries:
+        if (q['data'], q['t_ms']) not in guard_dropped:
+            same_bytes.setdefault(q['data'], []).append(q)
+
+    def packet_for(d: bytes, t_ms: float) -> Any:
+        # several hosts may have sent the same bytes: the packet of an assembly is the latest handled copy that had arrived by then
+        cands = [q for q in same_bytes.get(d, []) if q['t_ms'] <= t_ms + EPS and id(q) not in used]
+        return cands[-1] if cands else by_data.get(d)
     # ---- logical queries from the observed assemblies ------------------------------------------------
     logical: List[Dict[str, Any]] = []
     used: Set[int] = set()
@@ -169,7 +188,7 @@ def check(case: Dict[str, Any]) -> Dict[str, Any]:
     for a in run.assemblies:
         if a['t_ms'] < t0:
             continue
-        packets = [by_data[d] for d in a['datas'] if d in by_data]
+        packets = [packet_for(d, a['t_ms']) for d in a['datas'] if d in by_data]
         if len(packets) != len(a['datas']):
             continue    # not ours (none expected)
         for p in packets:
@@ -202,7 +221,7 @@ def check(case: Dict[str, Any]) -> Dict[str, Any]:
         immediate_shape = len(first_qs) == 1 and first_qs[0][1] in IMMEDIATE_TYPES
         logical.append({'g': a['g'], 't': a['t_ms'], 'packets': packets, 'exp': exp, 'dont_care': dont_care, 'probe': probe,
                         'train': is_train, 'immediate_shape': immediate_shape, 'known': known})
-    missing_pk = [q for q in run.queries if id(q) not in used and q['t_ms'] + 520 < run.end_ms]
+    missing_pk = [q for q in run.queries if id(q) not in used and q['t_ms'] + 520 < run.end_ms and (q['data'], q['t_ms']) not in guard_dropped]
     if missing_pk:
         raise Violation('a query packet was never handled', {'packets': [(rel(q['t_ms']), q['questions'], q['tc']) for q in missing_pk]},
                         tag='query-dropped')
